@@ -4,12 +4,12 @@ namespace AsynqModel.Batching
 set_option linter.unusedSimpArgs false
 
 theorem Ext.refl (s : St) : Ext s s := by
-  refine ⟨rfl, Nat.le_refl _, Nat.le_refl _, ?_, ?_⟩ <;> intros <;> simp
+  refine ⟨⟨rfl, rfl⟩, Nat.le_refl _, Nat.le_refl _, ?_, ?_⟩ <;> intros <;> simp
 
 theorem Ext.trans {s t u : St} (h1 : Ext s t) (h2 : Ext t u) : Ext s u := by
   obtain ⟨k1, b1, i1, B1, I1⟩ := h1
   obtain ⟨k2, b2, i2, B2, I2⟩ := h2
-  refine ⟨k1.trans k2, Nat.le_trans b1 b2, Nat.le_trans i1 i2, ?_, ?_⟩
+  refine ⟨⟨k1.1.trans k2.1, k1.2.trans k2.2⟩, Nat.le_trans b1 b2, Nat.le_trans i1 i2, ?_, ?_⟩
   · intro b hb
     have ⟨x1, y1⟩ := B1 b hb
     have ⟨x2, y2⟩ := B2 b (by omega)
@@ -39,6 +39,10 @@ structure Mid (s0 : St) (b0 a : Nat) (s : St) : Prop where
   runs : ∀ b, b < s.batches.length → b ≠ b0 → s.runs b ≤ 1 ∧ (s.bout b = none → s.runs b = 0)
   runs0 : s.runs b0 ≤ 1
   pre0 : s0.bout b0 = none
+  bi0 : s.bitems b0 = s0.bitems b0
+  nb : s.batches.length = (switch s0 b0).batches.length
+  aeq : a = (switch s0 b0).active
+  oth : ∀ b, b ≠ b0 → s0.bout b = none → s.bout b = none
 
 /-- a step inside the operation: the invariant is kept, nothing observable is revoked, and the batch being
     finished keeps its item list, outcome and run counter -/
@@ -56,7 +60,7 @@ theorem Next.trans {s0 b0 a s t u} (h1 : Next s0 b0 a s t) (h2 : Next s0 b0 a t 
   ⟨h2.mid, h1.ext.trans h2.ext, h2.bi.trans h1.bi, h2.bo.trans h1.bo, h2.ru.trans h1.ru⟩
 
 theorem ext_setItemOut (s : St) (i : Nat) (o : Outc) (hn : s.iout i = none) : Ext s (s.setItemOut i o) := by
-  refine ⟨rfl, by simp, by simp, ?_, ?_⟩
+  refine ⟨⟨rfl, rfl⟩, by simp, by simp, ?_, ?_⟩
   · intro b _; simp
   · intro j _
     simp only [setItemOut_ibatch, setItemOut_payload, setItemOut_ispawn, setItemOut_ilink, setItemOut_iout, true_and,
@@ -67,7 +71,7 @@ theorem ext_setItemOut (s : St) (i : Nat) (o : Outc) (hn : s.iout i = none) : Ex
 
 theorem ext_pushItem (s : St) (b p : Nat) (sp : Option Nat) (lk : Option Link := none) :
     Ext s (s.pushItem b p sp lk) := by
-  refine ⟨rfl, by simp, by simp, ?_, ?_⟩
+  refine ⟨⟨rfl, rfl⟩, by simp, by simp, ?_, ?_⟩
   · intro c _; simp
   · intro j hj
     have : ¬ j = s.items.length := by omega
@@ -76,7 +80,8 @@ theorem ext_pushItem (s : St) (b p : Nat) (sp : Option Nat) (lk : Option Link :=
 theorem next_setItemOut {s0 b0 a s} (h : Mid s0 b0 a s) (i : Nat) (o : Outc)
     (hn : s.iout i = none) : Next s0 b0 a s (s.setItemOut i o) := by
   have he := ext_setItemOut s i o hn
-  refine ⟨⟨h.ext.trans he, h.act, h.ane, h.alt, h.apend, h.blt, ?_, ?_, ?_, h.runs0, h.pre0⟩, he, rfl, rfl, rfl⟩
+  refine ⟨⟨h.ext.trans he, h.act, h.ane, h.alt, h.apend, h.blt, ?_, ?_, ?_, h.runs0, h.pre0, h.bi0, h.nb, h.aeq,
+    h.oth⟩, he, rfl, rfl, rfl⟩
   · intro j hj
     simp only [setItemOut_len] at hj
     have ⟨x, y, z⟩ := h.itm j hj
@@ -97,7 +102,8 @@ theorem next_pushItem {s0 b0 a s} (h : Mid s0 b0 a s) (p : Nat) (sp : Option Nat
   have halt := h.alt
   have hb0 : b0 < s.batches.length := Nat.lt_of_lt_of_le h.blt h.ext.2.1
   refine ⟨⟨h.ext.trans he, h.act, h.ane, by simpa using h.alt, by simpa using h.apend, h.blt, ?_, ?_, ?_,
-    by simpa using h.runs0, h.pre0⟩, he, ?_, by simp, by simp⟩
+    by simpa using h.runs0, h.pre0, by simp [pushItem_bitems, Ne.symm hane, h.bi0], by simpa using h.nb, h.aeq,
+    by simpa using h.oth⟩, he, ?_, by simp, by simp⟩
   · intro j hj
     simp only [pushItem_ilen] at hj
     simp only [pushItem_ibatch, pushItem_blen, pushItem_bout, pushItem_bitems, pushItem_iout]
@@ -136,6 +142,7 @@ theorem next_pushItem {s0 b0 a s} (h : Mid s0 b0 a s) (p : Nat) (sp : Option Nat
 /-- what is known of a logged event while `b0` is being finished (everything here is stable under `Ext`) -/
 def EvOK (s0 : St) (b0 a : Nat) (s : St) : Ev → Prop
   | .body b act => b = b0 ∧ act = a
+  | .bodyEnd _ _ _ => True
   | .item i o bb => s.iout i = some o ∧ s0.iout i = none ∧ i < s.items.length ∧ s.ibatch i = b0 ∧
       (bb = false → (∃ e, o = .err e ∧ s.bout b0 = some (.err e)) ∨
                     (o = .err .notSet ∧ s.kind = .user ∧ ∃ v, s.bout b0 = some (.val v)) ∨
@@ -153,6 +160,7 @@ theorem evok_mono {s0 b0 a s s'} (hE : Ext s s') (hb : b0 < s.batches.length) (e
     rw [this, hx]
   cases ev with
   | body b act => exact h
+  | bodyEnd _ _ _ => exact h
   | createFail _ => exact h
   | created i b src =>
     obtain ⟨h1, h2, h3, h4, h5⟩ := h
@@ -169,8 +177,8 @@ theorem evok_mono {s0 b0 a s s'} (hE : Ext s s') (hb : b0 < s.batches.length) (e
     refine ⟨by rw [i4 (by simp [h1])]; exact h1, h2, by omega, by rw [i1]; exact h4, fun hbb => ?_⟩
     rcases h5 hbb with ⟨e, he, hx⟩ | ⟨ho, hku, v, hx⟩ | ⟨hkd, ho⟩
     · exact Or.inl ⟨e, he, hbo _ hx⟩
-    · exact Or.inr (Or.inl ⟨ho, by rw [← hk]; exact hku, v, hbo _ hx⟩)
-    · exact Or.inr (Or.inr ⟨by rw [← hk]; exact hkd, by rw [i2]; exact ho⟩)
+    · exact Or.inr (Or.inl ⟨ho, by rw [← hk.1]; exact hku, v, hbo _ hx⟩)
+    · exact Or.inr (Or.inr ⟨by rw [← hk.1]; exact hkd, by rw [i2]; exact ho⟩)
 
 theorem pre_iout_none {s0 s : St} (hE : Ext s0 s) (i : Nat) (hn : s.iout i = none) : s0.iout i = none := by
   by_cases hi : i < s0.items.length
@@ -210,22 +218,140 @@ theorem linkFires_spec {s : St} {b j : Nat} (h : s.linkFires b j = true) :
     have ⟨hl, _⟩ := List.getElem?_eq_some_iff.mp e
     exact ⟨hl, by simp [St.ibatch, e, h.1], by simp [St.iout, e, h.2]⟩
 
+
+/-! ### the log tells every completion and every creation exactly once -/
+
+theorem isPlain_not_announce {ev : Ev} (h : ev.isPlain = true) : ev.isAnnounce = false := by
+  cases ev <;> simp_all [Ev.isPlain, Ev.isAnnounce]
+
+theorem itemCount_append (e1 e2 : List Ev) (i : Nat) : itemCount (e1 ++ e2) i = itemCount e1 i + itemCount e2 i := by
+  simp [itemCount, List.countP_append]
+theorem createdCount_append (e1 e2 : List Ev) (i : Nat) :
+    createdCount (e1 ++ e2) i = createdCount e1 i + createdCount e2 i := by
+  simp [createdCount, List.countP_append]
+theorem announceCount_append (e1 e2 : List Ev) (i : Nat) :
+    announceCount (e1 ++ e2) i = announceCount e1 i + announceCount e2 i := by
+  simp [announceCount, List.countP_append]
+theorem itemCount_cons (ev : Ev) (e : List Ev) (i : Nat) : itemCount (ev :: e) i = itemCount [ev] i + itemCount e i :=
+  itemCount_append [ev] e i
+theorem createdCount_cons (ev : Ev) (e : List Ev) (i : Nat) :
+    createdCount (ev :: e) i = createdCount [ev] i + createdCount e i := createdCount_append [ev] e i
+theorem announceCount_cons (ev : Ev) (e : List Ev) (i : Nat) :
+    announceCount (ev :: e) i = announceCount [ev] i + announceCount e i := announceCount_append [ev] e i
+
+theorem announceCount_plain (e : List Ev) (h : ∀ ev ∈ e, ev.isPlain = true) (b : Nat) : announceCount e b = 0 := by
+  induction e with
+  | nil => rfl
+  | cons ev e ih =>
+    rw [announceCount_cons, ih (fun x hx => h x (by simp [hx]))]
+    have := h ev (by simp)
+    cases ev <;> simp_all [Ev.isPlain, announceCount]
+
+/-- the log `evs` of a piece of an operation that leads from `s` to `t` tells every completion of an item and every
+    creation of an item exactly once, and nothing else -/
+def Law (s t : St) (evs : List Ev) : Prop :=
+  ∀ i, itemCount evs i = (if s.iout i = none ∧ (t.iout i).isSome then 1 else 0) ∧
+       createdCount evs i = (if s.items.length ≤ i ∧ i < t.items.length then 1 else 0)
+
+theorem iout_isSome_lt {s : St} {i : Nat} (h : (s.iout i).isSome) : i < s.items.length := by
+  apply Classical.byContradiction
+  intro hlt
+  have : s.items[i]? = none := List.getElem?_eq_none_iff.mpr (Nat.le_of_not_lt hlt)
+  simp [St.iout, this] at h
+
+theorem ext_iout_mono {s t : St} (hE : Ext s t) (i : Nat) (h : (s.iout i).isSome) : (t.iout i).isSome := by
+  rw [(hE.2.2.2.2 i (iout_isSome_lt h)).2.2.2.1 h]; exact h
+
+theorem Law.silent {s t : St} (h1 : ∀ i, t.iout i = s.iout i) (h2 : t.items.length = s.items.length) : Law s t [] := by
+  intro i
+  refine ⟨?_, ?_⟩
+  · rw [h1 i]; cases s.iout i <;> simp [itemCount]
+  · rw [h2]
+    have : ¬ (s.items.length ≤ i ∧ i < s.items.length) := by omega
+    simp [createdCount, this]
+
+theorem Law.nil (s : St) : Law s s [] := Law.silent (fun _ => rfl) rfl
+
+theorem Law.append {s t u : St} {e1 e2 : List Ev} (l1 : Law s t e1) (l2 : Law t u e2) (x1 : Ext s t) (x2 : Ext t u) :
+    Law s u (e1 ++ e2) := by
+  intro i
+  obtain ⟨a1, c1⟩ := l1 i
+  obtain ⟨a2, c2⟩ := l2 i
+  have m1 := ext_iout_mono x1 i
+  have m2 := ext_iout_mono x2 i
+  have n1 := x1.2.2.1
+  have n2 := x2.2.2.1
+  refine ⟨?_, ?_⟩
+  · rw [itemCount_append, a1, a2]
+    cases hs : s.iout i <;> cases ht : t.iout i <;> cases hu : u.iout i <;> simp_all
+  · rw [createdCount_append, c1, c2]
+    by_cases p1 : s.items.length ≤ i ∧ i < t.items.length
+    · have p2 : ¬ (t.items.length ≤ i ∧ i < u.items.length) := by omega
+      have p3 : s.items.length ≤ i ∧ i < u.items.length := by omega
+      simp [p1, p2, p3]
+    · by_cases p2 : t.items.length ≤ i ∧ i < u.items.length
+      · have p3 : s.items.length ≤ i ∧ i < u.items.length := by omega
+        simp [p1, p2, p3]
+      · have p3 : ¬ (s.items.length ≤ i ∧ i < u.items.length) := by omega
+        simp [p1, p2, p3]
+
+/-- an event that is neither a completion nor a creation does not count -/
+theorem Law.cons_other {s t : St} {e : List Ev} (ev : Ev) (hev : ev.isPlain = false) (l : Law s t e) :
+    Law s t (ev :: e) := by
+  intro i
+  obtain ⟨a, c⟩ := l i
+  rw [itemCount_cons, createdCount_cons, a, c]
+  cases ev <;> simp_all [Ev.isPlain, itemCount, createdCount]
+
+theorem Law.snoc_other {s t : St} {e : List Ev} (ev : Ev) (hev : ev.isPlain = false) (l : Law s t e) :
+    Law s t (e ++ [ev]) := by
+  intro i
+  obtain ⟨a, c⟩ := l i
+  rw [itemCount_append, createdCount_append, a, c]
+  cases ev <;> simp_all [Ev.isPlain, itemCount, createdCount]
+
+theorem law_setItemOut (s : St) (i : Nat) (o : Outc) (bb : Bool) (hlt : i < s.items.length) (hn : s.iout i = none) :
+    Law s (s.setItemOut i o) [.item i o bb] := by
+  intro j
+  refine ⟨?_, ?_⟩
+  · simp only [setItemOut_iout, hlt, and_true]
+    by_cases e : j = i
+    · subst e; simp [itemCount, hn]
+    · have e' : ¬ i = j := fun x => e x.symm
+      cases hj : s.iout j <;> simp [itemCount, e, e']
+  · have : ¬ (s.items.length ≤ j ∧ j < s.items.length) := by omega
+    simp [createdCount, this]
+
+theorem law_pushItem (s : St) (b p : Nat) (sp src : Option Nat) (lk : Option Link) :
+    Law s (s.pushItem b p sp lk) [.created s.items.length b src] := by
+  intro j
+  refine ⟨?_, ?_⟩
+  · simp only [pushItem_iout]
+    cases s.iout j <;> simp [itemCount]
+  · simp only [pushItem_ilen]
+    by_cases e : j = s.items.length
+    · subst e; simp [createdCount]
+    · have e' : ¬ s.items.length = j := fun x => e x.symm
+      have : ¬ (s.items.length ≤ j ∧ j < s.items.length + 1) := by omega
+      simp [createdCount, e', this]
+
 /-- what a (possibly nested) completion of an item of `b0` yields: state, log -/
 def CI (s0 : St) (b0 a : Nat) (s : St) (i : Nat) (o : Outc) (r : St × List Ev) : Prop :=
-  Next s0 b0 a s r.1 ∧ r.1.iout i = some o ∧ (∀ ev ∈ r.2, EvOK s0 b0 a r.1 ev) ∧ (∀ ev ∈ r.2, ev.isAnnounce = false)
+  Next s0 b0 a s r.1 ∧ r.1.iout i = some o ∧ (∀ ev ∈ r.2, EvOK s0 b0 a r.1 ev) ∧ (∀ ev ∈ r.2, ev.isPlain = true) ∧
+  Law s r.1 r.2
 
 /-- the `spawn` callback of an item of `b0` -/
 theorem spawnPart_spec {s0 b0 a s1} (h : Mid s0 b0 a s1) (it : Item) (hb : it.batch = b0) :
     Next s0 b0 a s1 (spawnPart s1 it).1 ∧ (∀ ev ∈ (spawnPart s1 it).2, EvOK s0 b0 a (spawnPart s1 it).1 ev) ∧
-    (∀ ev ∈ (spawnPart s1 it).2, ev.isAnnounce = false) := by
+    (∀ ev ∈ (spawnPart s1 it).2, ev.isPlain = true) ∧ Law s1 (spawnPart s1 it).1 (spawnPart s1 it).2 := by
   unfold spawnPart
   cases hsp : it.spawn with
-  | none => exact ⟨Next.refl h, by simp, by simp⟩
+  | none => exact ⟨Next.refl h, by simp, by simp, Law.nil s1⟩
   | some p =>
     have hnew := newItemOn_mid h p none (some b0)
     simp only [hb, hnew]
     have n2 := next_pushItem h p none
-    refine ⟨n2, ?_, ?_⟩
+    refine ⟨n2, ?_, ?_, law_pushItem s1 a p none (some b0) none⟩
     · intro ev hev
       simp at hev; subst hev
       exact ⟨rfl, rfl, h.ext.2.2.1, by simp, by simp [pushItem_ibatch]⟩
@@ -245,8 +371,8 @@ theorem ci_base {s0 b0 a s} (h : Mid s0 b0 a s) (i : Nat) (o : Outc) (bb : Bool)
     · exact Or.inl ⟨e, he, by simpa using hx⟩
     · exact Or.inr (Or.inl ⟨ho, by simpa using hku, v, by simpa using hx⟩)
     · exact Or.inr (Or.inr ⟨by simpa using hkd, by simpa using ho⟩)
-  have ⟨n2, ev2, na2⟩ := spawnPart_spec n1.mid it hit
-  refine ⟨n1.trans n2, ?_, ?_, ?_⟩
+  have ⟨n2, ev2, na2, l2⟩ := spawnPart_spec n1.mid it hit
+  refine ⟨n1.trans n2, ?_, ?_, ?_, (law_setItemOut s i o bb hlt hn).append l2 n1.ext n2.ext⟩
   · rw [(n2.ext.2.2.2.2 i (by simpa using hlt)).2.2.2.1 (by simp [io1])]; exact io1
   · intro ev hev
     simp only [List.mem_cons] at hev
@@ -263,8 +389,8 @@ theorem ci_base {s0 b0 a s} (h : Mid s0 b0 a s) (i : Nat) (o : Outc) (bb : Bool)
 theorem ci_nest {s0 b0 a s i o s2 e2 j o' r3} (c2 : CI s0 b0 a s i o (s2, e2)) (hlt : i < s.items.length)
     (c3 : CI s0 b0 a s2 j o' r3) (ev0 : Ev) (he0 : e2 = ev0 :: e2.tail) :
     CI s0 b0 a s i o (r3.1, ev0 :: (e2.tail ++ r3.2)) := by
-  obtain ⟨n2, io2, ev2, na2⟩ := c2
-  obtain ⟨n3, _, ev3, na3⟩ := c3
+  obtain ⟨n2, io2, ev2, na2, l2⟩ := c2
+  obtain ⟨n3, _, ev3, na3, l3⟩ := c3
   have hlt2 : i < s2.items.length := Nat.lt_of_lt_of_le hlt n2.ext.2.2.1
   have hmem : ∀ ev, ev ∈ ev0 :: (e2.tail ++ r3.2) → ev ∈ e2 ∨ ev ∈ r3.2 := by
     intro ev hev
@@ -274,7 +400,11 @@ theorem ci_nest {s0 b0 a s i o s2 e2 j o' r3} (c2 : CI s0 b0 a s i o (s2, e2)) (
     · exact Or.inl (Or.inl hev)
     · exact Or.inl (Or.inr hev)
     · exact Or.inr hev
-  refine ⟨n2.trans n3, ?_, ?_, ?_⟩
+  have hl : Law s r3.1 (ev0 :: (e2.tail ++ r3.2)) := by
+    have := l2.append l3 n2.ext n3.ext
+    rw [he0] at this
+    exact this
+  refine ⟨n2.trans n3, ?_, ?_, ?_, hl⟩
   · have := (n3.ext.2.2.2.2 i hlt2).2.2.2.1 (by simp [io2] : (St.iout s2 i).isSome)
     rw [this]; exact io2
   · intro ev hev
@@ -321,7 +451,8 @@ theorem completeItem_spec {s0 b0 a s} (h : Mid s0 b0 a s) (fuel i : Nat) (o : Ou
     (hi : i ∈ s.bitems b0) (hn : s.iout i = none) (hr : bb = false → Rule s b0 i o) :
     Next s0 b0 a s (completeItem fuel s i o bb).1 ∧ (completeItem fuel s i o bb).1.iout i = some o ∧
     (∀ ev ∈ (completeItem fuel s i o bb).2, EvOK s0 b0 a (completeItem fuel s i o bb).1 ev) ∧
-    (∀ ev ∈ (completeItem fuel s i o bb).2, ev.isAnnounce = false) := by
+    (∀ ev ∈ (completeItem fuel s i o bb).2, ev.isPlain = true) ∧
+    Law s (completeItem fuel s i o bb).1 (completeItem fuel s i o bb).2 := by
   have ⟨hlt, hib⟩ := h.mem b0 h.b0lt i hi
   exact completeItem_core fuel s i o bb h hlt hib hn hr
 
